@@ -20,6 +20,8 @@ EXTS = list(cpy.EXT_SUFFIXES)  # e.g. .cpython-312-x86_64-linux-gnu.so, .abi3.so
 PYC_TAG = f".{__import__('sys').implementation.cache_tag}.pyc"
 TOP_NAMES = ["pkg", "ns"]
 SUB_NAMES = ["a", "b", "_p", "ñ"]
+# Names the *inspector* refuses on purpose (debugger internals): as sources or packages they are ordinary modules.
+ODD_SUB_NAMES = ["debugpy_bridge", "_pydev_tools"]
 PKGUTIL_INIT = "__path__ = __import__('pkgutil').extend_path(__path__, __name__)\n"
 PKGRES_INIT = "__import__('pkg_resources').declare_namespace(__name__)\n"
 # the spellings found in the wild: one-liners, with a leading docstring/comment, and the try/except idiom documented
@@ -81,6 +83,13 @@ def _gen_dir(rng, files, sp, rel, name, cfg, depth, style):
     n_children = rng.choice([0, 1, 2, 2, 3])
     for child in rng.sample(SUB_NAMES, min(n_children, len(SUB_NAMES))):
         _gen_entry(rng, files, sp, d, child, cfg, depth + 1)
+    if rng.random() < 0.06:
+        odd = rng.choice(ODD_SUB_NAMES)
+        if rng.random() < 0.5 or depth >= 3:
+            files[f"{d}{odd}.py"] = _body("py", f"sp{sp}/{d}{odd}.py")
+        else:
+            files[f"{d}{odd}/__init__.py"] = _body("py", f"sp{sp}/{d}{odd}/__init__.py")
+            files[f"{d}{odd}/a.py"] = _body("py", f"sp{sp}/{d}{odd}/a.py")
     if cfg.get("symlinks") and rng.random() < 0.5:
         # a sibling sub-package also reachable under a second name (compat -> impl): both names are importable
         subdirs = sorted({rel[len(d) :].split("/", 1)[0] for rel in files if rel.startswith(d) and "/" in rel[len(d) :] and f"{d}{rel[len(d):].split('/', 1)[0]}/__init__.py" in files})
